@@ -120,7 +120,8 @@ class ObservedCompiler(Compiler):  # noqa: D101
             # Use the observed version to query observed ancestors in the compiled_net
             obs_node = observed_name(node)
             for ancestor_node in nx.ancestors(compiled_net, obs_node):
-                if '_stochastic' in source_net.nodes.get(ancestor_node, {}):
+                ancestor_state = source_net.nodes.get(ancestor_node, {}).get('attr_dict', {})
+                if '_stochastic' in ancestor_state:
                     raise ValueError("Observed nodes must be deterministic. Observed "
                                      "data depends on a non-deterministic node {}."
                                      .format(ancestor_node))
